@@ -5,6 +5,12 @@ CHECKS = {
  "C04": dict(level="exploration", sec="3/C04", technique="exhaustive small-scope enumeration (operator x width x all operand values; depth-2 trees) against a bit-vector reference model",
    text="Exhaustive grid, not a sample: every operator at widths 1..8 over all operand pairs, boundary grids to 200 bits incl. shift amounts that do not fit usize, all depth-2 trees over a leaf alphabet, all unequal-width rejections; through Constant, Expression+eval, sra/rotl/replace_scalar. Values outside the alphabets at widths > 8 are not covered.",
    note="Trusted: harness Vec<bool> bit-vector reference (self-tested against native u64/i64 at start-up). falcon built with overflow-checks on."),
+ "C11": dict(level="model_checking", sec="3/C11", technique="exhaustive enumeration of all digraphs up to 4 (thorough 5) vertices x all roots against definitional oracles; stateright explicit-state BFS over all edit histories (closing search over the real Graph object)",
+   text="All 66 632 digraphs on <=4 vertices (thorough: +2^20 on 5) from every root against brute-force definitions (dominance by vertex deletion, all DFS runs, T1/T2); edit-history state space of the real object closes at 567 states with every view and every algorithm re-checked in each. Larger graphs are not covered.",
+   note="Trusted: O(n^3) definitional oracles in the harness. Unreachable vertices: only no-failure/exclusion is required. State key = Debug dump of the Graph incl. both adjacency mirrors."),
+ "C16": dict(level="model_checking", sec="3/C16", technique="stateright explicit-state BFS over all set_memory/set32 histories on the real backing::Memory against a byte/permission-map reference model",
+   text="Every history of region writes (8 start addresses x lengths 0..5 x 3 permissions) and in-region set32 to depth 3 (reduced alphabet: depth 4 in thorough), both endiannesses; all reads of widths 8..64 at every window address compared in every state. Longer histories / wider windows are not covered.",
+   note="Trusted: BTreeMap<addr,(byte,perm)> reference. set32 on unmapped addresses is not exercised (panics by design)."),
 }
 NA = []
 def main():
